@@ -177,6 +177,40 @@ def scan(ctx, crate, E):
         txt = show(S.operand(t["args"][0]))
         if "actions" in txt and "next" not in chain and "as Rewrite" not in txt:
             loops.append((b, t, chain))
+    # one scan per node: transitions and rewrites are tried in the one order they were registered
+    # in. Searching the list once for a transition and once more for a rewrite loses that order
+    # (a rewrite registered before a matching transition must win).
+    searches = []
+    for b, t in fa.calls():
+        nm = _names(t)
+        if nm & {"find_map", "find", "position", "rposition", "rfind", "any", "all", "for_each", "try_for_each",
+                 "filter_map", "filter"} and t["args"]:
+            ch = _chain_to_source(fa, t["args"][0])
+            txt = show(S.operand(t["args"][0]))
+            if "actions" in txt or "actions" in " ".join(ch):
+                searches.append((fa.loc(b), sorted(nm)[0]))
+            else:
+                # a slice of the action list bound to a variable (`let pending = &node.actions[i..]`)
+                src = fa.origin(t["args"][0])
+                cur, hops = t["args"][0], 0
+                while hops < 8:
+                    hops += 1
+                    o2 = fa.origin(cur)
+                    if o2[0] != "call":
+                        break
+                    if "actions" in show(S.operand(o2[2]["args"][0])) if o2[2]["args"] else False:
+                        searches.append((fa.loc(b), sorted(nm)[0]))
+                        break
+                    cur = o2[2]["args"][0] if o2[2]["args"] else None
+                    if cur is None:
+                        break
+    if len(searches) + len(loops) > 1:
+        ctx.ob("FIRSTMATCH-SCAN", "%s|ascending-scan" % P_REW, False, _loc(crate, p),
+               "rewrite() goes over a node's actions more than once (%s): a transition and a rewrite are "
+               "no longer tried in the order in which they were registered, so a longer rule registered "
+               "later wins over a shorter rule registered first"
+               % ", ".join("%s at %s" % (n_, l_) for l_, n_ in searches))
+        return
     counted = None
     if not loops:
         # `let mut i = edge_idx; while let Some(action) = actions.get(i) { ..; i += 1 }`
